@@ -19,6 +19,16 @@ urwid's own `validate_size`:
                        (auxiliary, literal reading) modes that sizing() reports for trees that are ill-formed
                        by urwid's documentation -- see `demands` below; switch off with REPORT_ILLFORMED
 
+Triage notes (what was changed after the first runs, and why):
+  * check names: the five clause checks are reported per widget family, "C01/<clause>/<family>" (families = the
+    generator's own groups: Text, Text-markup, Edit, ..., Pile, Pile3, Columns, ..., Overlay, ListBox); the oracle is
+    the same for all of them.  Reason: the runner lists one known finding per check name and 20 failures per check.
+  * `aux-reported-mode-of-illformed-tree` is INFORMATIONAL (a reading beyond the statement, see INFORMATIONAL below).
+  * fill characters (Divider, SolidFill, LineBox lines, ScrollBar thumb) are generated one column wide only (see
+    `one_column`): wider / zero-width ones are rejected by SolidCanvas by design and are outside the quantifier.
+  * failure details carry identifier-named fields for the known-finding matcher: mode, root, classes, exc, at, step,
+    msg, pack, rows_calc (next to expr, enc, size, focus, clause, why, sizing, canvas, cursor).
+
 A *tree* is a Python expression over the urwid namespace (plus three builders defined here:
 `bar_graph`, `list_box`, `tree_list_box`), so every failure detail carries a copy-and-paste reproduction.
 Each evaluation builds a fresh widget (no history: ListBox/Scrollable/Edit keep scroll state), sets the
@@ -667,7 +677,7 @@ def leaves(enc, mode, thorough):
         for o in _kw(hlines=(..., [1], [4, 2]) if thorough else (..., [4, 2]), bar_width=(..., 1, 2, 7) if thorough else (..., 1, 2), satt=(..., {(1, 0): "x"}))
     ]
     fam["GraphVScale"] = [f"GraphVScale({lab}, {top})" for lab in ("[]", "[(1, 'a')]", "[(5, '5'), (2, '中'), (0, '0')]", "[(9, 'toolong')]") for top in (1, 5, 9)]
-    fam["TreeListBox"] = [f"tree_list_box({lab}, {k}, {d})" for lab in ("'r'", "'中'", "'abcdefg'") for k in (0, 1, 3) for d in (0, 1, 2)]
+    fam["TreeListBox"] = [f"tree_list_box({lab}, {k}, {d})" for lab in ("'r'", "'中'", "'abcdefg'") for k in (0, 1, 3) for d in (0, 1, 2) if thorough or not (k == 3 and d == 2 and lab != "'r'")]  # triage: the 13-node trees once per quick run (run time)
     return fam
 
 
@@ -761,7 +771,9 @@ def decorations(children, lvl):
     if lvl == 0:
         lb = ["", ", 'T'", ", tline='', lline=''"]
     else:
-        lb = [""] + [f", {t!r}, {a!r}" for t in ("T", "中", "long title") for a in ALIGNS]
+        # Triage (run time only, quick tier must stay < 45 s on a busy machine): the covering level pairs every title with one
+        # alignment (every title and every alignment still appear); the full product stays in the thorough tier
+        lb = [""] + [f", {t!r}, {a!r}" for i, t in enumerate(("T", "中", "long title")) for j, a in enumerate(ALIGNS) if lvl == 2 or i == j]
         lb += [", tline=''", ", bline=''", ", lline=''", ", rline=''", ", tline='', bline=''", ", lline='', rline=''", ", tline='', bline='', lline='', rline=''", ", 'T', tline=''", ", 'T', lline='', rline=''"]
         # corners are Text widgets (any text); tline/bline/lline/rline are fill characters (see `one_column`): a wide
         # character is generated for the corners only, a one-column non-ASCII one for the lines
@@ -802,10 +814,10 @@ def containers(children, flow_children, box_children, lvl):
         pairs = [(a, b) for a in items for b in second]
         fam["Pile"] = ["Pile([])"] + [f"Pile([{a}])" for a in items] + [f"Pile([{a}, {b}])" for a, b in pairs] + [f"Pile([{b}, {a}], focus_item=1)" for a, b in pairs[:: 2 if lvl else 3]]
         fam["Columns"] = ["Columns([])"] + [f"Columns([{a}]{o})" for a in items for o in (("", ", box_columns=[0]") if lvl else ("",))]
-        fam["Columns"] += [f"Columns([{a}, {b}]{copts[(i + j) % len(copts)]})" for i, (a, b) in enumerate(pairs) for j in ((0, 1, 3) if lvl else (1,))]
+        fam["Columns"] += [f"Columns([{a}, {b}]{copts[(i + j) % len(copts)]})" for i, (a, b) in enumerate(pairs) for j in ((0, 3) if lvl else (1,))]  # triage: was (0, 1, 3); every option set still meets every slot kind (i varies), run time only
         fam["Columns"] += [f"Columns([{b}, {a}]{copts[i % len(copts)]})" for i, (a, b) in enumerate(pairs[:: 2 if lvl else 3])]
         if lvl:
-            triples = [(a, b, c) for a in items[::4] for b in items[1::7] for c in items[::9]]
+            triples = [(a, b, c) for a in items[::4] for b in items[1::7] for c in items[::13]]  # triage: was [::9]; run time of the quick tier only
             fam["Pile3"] = [f"Pile([{a}, {b}, {c}])" for a, b, c in triples]
             fam["Columns3"] = [f"Columns([{a}, {b}, {c}], dividechars={i % 2})" for i, (a, b, c) in enumerate(triples)]
     else:
@@ -1017,7 +1029,9 @@ def _task(args):
     return kind, fam, tallies, stats
 
 
-BIG = ("Pile", "Pile3", "Columns", "Columns3", "Overlay", "Padding", "Filler", "GridFlow", "ListBox", "LineBox", "BarGraph", "Edit")
+# Triage: Frame, Scrollable and TreeListBox added (run time of the quick tier only: they are the next most expensive families and,
+# like the others, are built from ASCII children whose rendering does not depend on the encoding; UTF-8 stays complete)
+BIG = ("Pile", "Pile3", "Columns", "Columns3", "Overlay", "Padding", "Filler", "GridFlow", "ListBox", "LineBox", "BarGraph", "Edit", "Frame", "Scrollable", "TreeListBox")
 
 
 def _bounds(tier):
